@@ -24,6 +24,7 @@ class LemmaSet:
         self.t0 = time.time()
         self.cur = None
         self.query_timeout_ms = 60000
+        self.lemma_time_budget = 420.0       # seconds of wall clock per lemma; exceeding it = not decided
 
     # ------------------------------------------------------------------ running lemmas
     def lemma(self, name, fn):
@@ -32,6 +33,7 @@ class LemmaSet:
         n0 = len(self.obligations)
         p0 = self.paths
         t0 = time.time()
+        self.ex.deadline = t0 + self.lemma_time_budget
         try:
             fn(self)
         except Unsupported as e:
@@ -57,6 +59,11 @@ class LemmaSet:
             return ex.funcs[fname]
         c = [v for n, v in ex.funcs.items() if (n.endswith("::" + fname) or n == fname or fname.endswith("::" + n)) and "verif_hooks" not in n and "tests::" not in n
              and not n.startswith(("const ", "promoted["))]
+        if len(c) > 1:
+            # prefer methods of State
+            c2 = [x for x in c if "src/state.rs" in x.name and x.params and "state::State" in x.params[0][1]]
+            if len(c2) == 1:
+                c = c2
         if len(c) != 1:
             raise Unsupported("function %s: %d candidates %s" % (fname, len(c), [x.name for x in c][:4]))
         return c[0]
